@@ -68,12 +68,13 @@ class RdflibTripleYielder(BaseTriplesYielder):
 
         for a_prefix_namespace_tuple in a_graph.namespaces():
             candidate_uri = str(a_prefix_namespace_tuple[1])
-            if candidate_uri not in namespaces_dict:
+            if candidate_uri not in namespaces_dict and str(a_prefix_namespace_tuple[0]) not in namespaces_dict.values():
                 if candidate_uri == _XML_WRONG_URI:  # XML fix...
                     candidate_uri += "/"             # XML fix...
                 namespaces_dict[candidate_uri] = str(a_prefix_namespace_tuple[0])
             # There is no else here. In case of conflict between the parsed content and the dict provided by the user,
-            # the user's one have priority
+            # the user's one have priority: a namespace keeps the user's prefix, and a prefix that is already taken (by the
+            # user or by the shapes namespace) is not bound a second time to the namespace of the document
 
 
     @staticmethod
